@@ -1,9 +1,9 @@
 CONSTANTS
   Kind = "x"
   MaxE = 4
-  MaxUR = 3
+  MaxUR = 2
   MaxF = 0
-  UseStop = TRUE
+  UseStop = FALSE
   Flat = FALSE
   Pre = FALSE
   Shape = "any"
